@@ -571,6 +571,14 @@ def opCobsStr (j : Json) : Except String Json := do
   let im : String ← get j "im"
   pure (obj [("str", .str (Fmt.cobsStr re im)), ("fmt", .str (Fmt.cobsFormat re im))])
 
+/-- op "assemblefiles": {"names": [chain name derived from each file, in the order the files are handed over], "tags": [n]}
+    -> {"pairs": [[name, tag]]} - the chains of the observable, sorted by name, each with the tag of the file it came from -/
+def opAssembleFiles (j : Json) : Except String Json := do
+  let names : List String ← get j "names"
+  let tags : List Nat ← get j "tags"
+  let r := Names.assembleByFile id (List.zip names tags)
+  pure (obj [("pairs", Json.arr (r.map (fun p => Json.arr #[.str p.1, enc p.2])).toArray)])
+
 /-- op "flowwindow": {"n": number of flow times, "mask": [value > 0], "fr": fit_range} -> {"idx": indices of the flow times
     handed to the straight-line fit} | {"exc": "no-crossing"} -/
 def opFlowWindow (j : Json) : Except String Json := do
@@ -621,6 +629,7 @@ def dispatch (op : String) (j : Json) : Except String Json :=
   | "jsondoc" => opJsonDoc j
   | "pobs" => opPobs j
   | "flowwindow" => opFlowWindow j
+  | "assemblefiles" => opAssembleFiles j
   | "cobsstr" => opCobsStr j
   | "sortnames" => opSortNames j
   | "select" => opSelect j
